@@ -44,7 +44,7 @@ def cases(rng, tier, X):
         out.append(('m%d_solo1' % k, head + h1))
     # universal traffic on two interfaces (every frame type / sender / path / service, Emits naming the other interface's address, ...)
     for k in range(40 if tier == 'quick' else 4000):
-        u = F.universal(rng, nif=2, with_glob_changes=False)
+        u = F.universal(rng, nif=2, with_glob_changes=False)      # 15 % of them: both contexts report the same hardware address
         head = [o for o in u if o.startswith(('iface', 'glob'))]
         body = [o for o in u if o.startswith('rx ')]
         out.append(('u%d_merged' % k, head + body))
